@@ -70,7 +70,7 @@ First16(k) == IF Len(k) >= 16 THEN SubSeq(k, 1, 16) ELSE k
 U32Octets(v) == LET m == v.mag IN Fill(4 - Len(m), 0) \o m         \* boots / time as 4 octets (values < 2^32)
 
 -----------------------------------------------------------------------------
-NoWalk == [active |-> FALSE, wbuf |-> <<>>, wstop |-> FALSE, yielded |-> <<>>, honest |-> FALSE, mib |-> <<>>]
+NoWalk == [active |-> FALSE, wbuf |-> <<>>, wstop |-> FALSE, werr |-> FALSE, yielded |-> <<>>, honest |-> FALSE, mib |-> <<>>]
 
 TOpen ==
   /\ IsEvent("Open") /\ UNCHANGED fails
@@ -95,7 +95,7 @@ TWalkStart ==
   /\ LET e == Rec[l]
          b == OidFromText(e.base).content IN
      S' = [S EXCEPT ![e.sid] = [@ EXCEPT !.it = [start |-> b, last |-> b],
-                                        !.walk = [active |-> TRUE, wbuf |-> <<>>, wstop |-> FALSE, yielded |-> <<>>,
+                                        !.walk = [active |-> TRUE, wbuf |-> <<>>, wstop |-> FALSE, werr |-> FALSE, yielded |-> <<>>,
                                                   honest |-> e.honest, mib |-> e.mib]]]
 
 (* C05: the entries of the MIB lying strictly below the base, in MIB (lexicographic) order *)
@@ -119,7 +119,8 @@ TWalkEnd ==
                 /\ ExcIn("Stop", e.exc, e.bases) =>
                       /\ s.walk.wstop                                        \* ends only when the replies say so
                       /\ s.walk.honest => s.walk.yielded = SubtreeNames(s.walk.mib, s.it.start)   \* C05
-                /\ ~ExcIn("Stop", e.exc, e.bases) => s.walk.wstop,            \* an error ended the walk (judged at Recv)
+                /\ ~ExcIn("Stop", e.exc, e.bases) => (s.walk.wstop /\ s.walk.werr),   \* only an error seen by the receiving call (judged at
+                                                                                  \* Recv: timeout, undecodable, error reply) ends a walk otherwise
                 [s EXCEPT !.walk = NoWalk])
 
 TClose == /\ IsEvent("Close") /\ S' = [S EXCEPT ![Rec[l].sid] = Closed] /\ UNCHANGED fails
@@ -393,15 +394,15 @@ WalkAfter(s, x, e) ==
   IF ~s.walk.active THEN s.walk
   ELSE IF x.k = "yield" \/ (x.k = "yield-or-stop" /\ NoExc(e)) THEN [s.walk EXCEPT !.wbuf = <<x.vb>>]
   ELSE IF x.k = "bulk" THEN [s.walk EXCEPT !.wbuf = x.yield, !.wstop = x.stop]
-  ELSE [s.walk EXCEPT !.wstop = TRUE]
+  ELSE [s.walk EXCEPT !.wstop = TRUE, !.werr = (x.k = "exc" /\ x.cls # "Stop")]
 ItAfter(s, x, e) ==
   IF x.k = "yield" \/ (x.k = "yield-or-stop" /\ NoExc(e)) THEN [s.it EXCEPT !.last = x.vb.name]
   ELSE IF x.k = "bulk" THEN [s.it EXCEPT !.last = x.last]
   ELSE s.it
 
 AfterRecv(s, r, e) ==
-  IF r.o = "wouldblock" THEN [s EXCEPT !.inbox = <<>>, !.pending = FALSE, !.walk = [@ EXCEPT !.wstop = TRUE]]
-  ELSE IF r.o = "raise" THEN [s EXCEPT !.inbox = r.rest, !.pending = FALSE, !.walk = [@ EXCEPT !.wstop = TRUE]]
+  IF r.o = "wouldblock" THEN [s EXCEPT !.inbox = <<>>, !.pending = FALSE, !.walk = [@ EXCEPT !.wstop = TRUE, !.werr = TRUE]]
+  ELSE IF r.o = "raise" THEN [s EXCEPT !.inbox = r.rest, !.pending = FALSE, !.walk = [@ EXCEPT !.wstop = TRUE, !.werr = TRUE]]
   ELSE LET x == Expected(s, r.a.cpdu) IN
        [s EXCEPT !.inbox = r.rest, !.pending = FALSE,
                  !.it = ItAfter(s, x, e), !.walk = WalkAfter(s, x, e),
